@@ -360,6 +360,8 @@ func impl() {
 				res = implDecbatch(p)
 			case "cc":
 				res = implCC(p)
+			case "bin":
+				res = implBin(p)
 			case "rdrt":
 				kind := p.Next()
 				o := bo(p.Next())
